@@ -21,7 +21,7 @@ ASSUMPTIONS = ['virtual time: library processing takes zero time, so setpoint in
                'an altitude of exactly 0 at land() is excluded (division by zero in down(0) needs measure-zero timing on a real clock)']
 REQUIRED = ['mon.mc_programs', 'mon.mc_exceptions_in_body', 'mon.mc_hover_setpoints', 'mon.mc_primitives_checked',
             'mon.hl_programs', 'mon.hl_goto_checked', 'mon.hl_exceptions_in_body', 'mon.quiet_after_landing',
-            'mon.mc_consecutive_motions_with_same_vertical_velocity']
+            'mon.mc_consecutive_motions_with_same_vertical_velocity', 'mon.mc_statement_level_preemption_runs']
 DESC_TIMEOUT = 900
 PERIOD = 0.2
 
@@ -227,11 +227,19 @@ def run_mc(desc, ctx):
             ob['t_land_done'] = s.now
             s.sleep(5.0)
             ob['alive'] = ob['thread'].is_alive() if ob['thread'] is not None else None
-        for pol in ('rtb', 'random', 'pct'):
+        # the last two runs pre-empt at statement level (sys.monitoring LINE events): the setpoint thread can be
+        # suspended between any two statements while the commanding thread lands
+        for pol in ('rtb', 'random', 'pct', 'line', 'line2'):
             cf.log.clear()
             ob.update({'segments': [], 'escaped': None, 'thread': None, 'prims': []})
             ob.pop('boom', None)
-            _, abort, sch = harness.sched_case(fn, seed=desc['seed'] * 31 + it, policy=pol, horizon=5000.0)
+            if pol.startswith('line'):
+                _, abort, sch = harness.sched_case(fn, seed=desc['seed'] * 31 + it + (7 if pol == 'line2' else 0), policy='random',
+                                                   line_p=0.3 if pol == 'line' else 0.08, horizon=5000.0)
+                ctx.count('mon.mc_statement_level_preemption_runs')
+                ctx.count('mon.mc_line_points', sch.line_points)
+            else:
+                _, abort, sch = harness.sched_case(fn, seed=desc['seed'] * 31 + it, policy=pol, horizon=5000.0)
             ctx.evals()
             ctx.count('mon.mc_programs')
             ctx.count('mon.mc_consecutive_motions_with_same_vertical_velocity', ob.pop('same_vz', 0))
